@@ -196,6 +196,14 @@ def _shard_types(item, out):
     out["samples"].append({"type_resolver_config": _cfg_json(typecfg), "documents": TYPE_DOCS[:1]})
 
 
+class _FalsyObj:
+    c = "RED"
+    name = "falsy but not null"
+
+    def __bool__(self):
+        return False
+
+
 class _ClsA:
     """runtime type named by its class name (third naming way)"""
 
@@ -227,8 +235,9 @@ def _shard_default_resolver(item, out):
     obj = cls_a()
     obj.id = "x1"
     obj.a = 4
-    root = {"node": obj, "a": {"id": "only-id"}}
-    text, located = doc.roundtrip(doc.parse("{ node { __typename id ... on A { a } } a { id name a } }"))
+    # ... and objects that are falsy in Python (an empty dict, an object whose truth value is False) are objects, not null
+    root = {"node": obj, "a": {"id": "only-id"}, "b": {}, "c": _FalsyObj()}
+    text, located = doc.roundtrip(doc.parse("{ node { __typename id ... on A { a } } a { id name a } b { b tags } c { c name } }"))
     scn = Scenario(root=root, resolvers=set())
     ok, info = explore.compare_case(schema, located, text, engine, scn, None, None)
     out["counts"]["evaluations"] += 1
